@@ -10,7 +10,7 @@ func init() {
 		Bounds:      map[string]any{"quick": "cap ≤ 3 (step); 2 acquirers cap 1, D = 3; cancellation D = 3", "thorough": "3 acquirers cap 1..2, D = 4; cancellation D = 5"},
 		specs: func(tier string) []specRef {
 			s := []specRef{
-				hsx(rootPkg, "VerifC24_step", P{"max_cap": 3}, 3000000, 1800, "acquired", "cancelled", "stored", "cleaned", "closed"),
+				hsx(rootPkg, "VerifC24_step", P{"max_cap": 3}, 3000000, 1800, "acquired", "cancelled", "stored", "cleaned", "closed", "dialfailed"),
 				hsd(rootPkg, "VerifC24_sched", P{"cap": 1, "acquirers": q(tier, int64(2), 3)}, q(tier, 3, 4), 3000000, 1800, "served"),
 				hsd(rootPkg, "VerifC05_poolCancel", nil, q(tier, 3, 5), 3000000, 1800, "returned"),
 				hsd(rootPkg, "VerifC05_poolRetry", nil, q(tier, 3, 5), 3000000, 1800, "cancelled", "gotwire"),
